@@ -139,7 +139,7 @@ def nonmutating(rng, curve, other):
 def run_case(ctx, case):
     rec, drv = ctx["rec"], ctx["drv"]
     c = de(case)
-    U, P, W = c["U"], [tuple(p) for p in c["P"]], c["W"]
+    U, P, W = c["U"], (None if c["P"] is None else [tuple(p) for p in c["P"]]), c["W"]
     ops = [tuple(o) for o in c["ops"]]
     raising = 0
     curve = make_curve(U, P, W)
@@ -259,6 +259,26 @@ def gen_ops(rng, drv, st, length):
 def run(ctx):
     rng = ctx["rng"]
     maxlen = budget(ctx, 8, 20)
+    # curves that carry weights but no control points (and neither): the weights must follow the knot vector
+    for i in range(budget(ctx, 8, 60)):
+        U = rand_kv(rng, pmax=2, nintmax=2, maxmult=1)
+        p, n, knots = kv_info(U)
+        W = rand_weights(rng, n, rng.choice(["pos", "pos", "none"]))
+        ops = []
+        for _ in range(rng.randint(1, 3)):
+            k = rng.choice(["insert", "remove", "deginc", "degdec", "knotclean"])
+            a, b = U[0], U[-1]
+            if k == "insert":
+                ops.append(("insert", [a + (b - a) * rng.choice(GRID)]))
+            elif k == "remove" and len(knots) > 2:
+                ops.append(("remove", [rng.choice(knots[1:-1])], rng.choice(["default", None])))
+            elif k == "deginc":
+                ops.append(("deginc", F(1)))
+            elif k == "degdec":
+                ops.append(("degdec", F(1), rng.choice(["default", None])))
+            else:
+                ops.append(("knotclean",))
+        run_case(ctx, ser(dict(kind="seq", U=U, P=None, W=W, ops=ops, other=None, mutators_only=True)))
     # lossy refits of rational curves with very unequal weights: the refitted denominator may change sign, the weights
     # setter then refuses it *after* the new knot vector and points have been computed (atomicity window of update())
     for i in range(budget(ctx, 10, 80)):
